@@ -50,6 +50,25 @@ theorem tanMix_act (c : K) (A : Matrix (Fin n) (Fin n) K) (X : Matrix (Fin 2) (F
       Matrix.cons_val_zero, Finset.sum_mul, ← Finset.sum_sub_distrib]
     exact Finset.sum_congr rfl (fun x _ => by ring)
 
+theorem actMat_row' (A : Matrix (Fin n) (Fin n) K) (X : Matrix (Fin k) (Fin n) K) (i : Fin k) :
+    actMat A X i = actRow A (X i) := by
+  funext j; simp [actMat, actRow, Matrix.mul_apply, Matrix.vecMul, dotProduct]
+
+theorem segmentIdeal_equivariant' {J A : Matrix (Fin n) (Fin n) K} (hA : IsIso J A) (r : K → K)
+    (X : Matrix (Fin 2) (Fin n) K) :
+    segmentIdeal J r (actMat A X) = actMat A (segmentIdeal J r X) := by
+  have hq : segQuad J (actMat A X) = segQuad J X := by
+    simp only [segQuad, actMat_row', bil_act hA]
+  unfold segmentIdeal
+  rw [hq, segMix_act]
+
+theorem tangentProj_equivariant' {J A : Matrix (Fin n) (Fin n) K} (hA : IsIso J A)
+    (X : Matrix (Fin 2) (Fin n) K) :
+    tangentProj J (actMat A X) = actMat A (tangentProj J X) := by
+  unfold tangentProj
+  simp only [actMat_row', bil_act hA]
+  exact tanMix_act _ A X
+
 /-- array-backed execution of `wordMat` (what the driver runs) -/
 def wordD {K : Type} [Field K] {G : Type*} [Inhabited K] (gens : G → DMat n n K) (w : List G) : DMat n n K :=
   w.foldl (fun M g => M.mul (gens g)) DMat.one
